@@ -109,7 +109,7 @@ func checkLimitsCase(c limitsCase, o *pbt.Rec) pbt.Verdict {
 		o.Labelf("limits:depth=%s", bucket(w.maxDepth))
 		o.Labelf("limits:fields=%s", bucket(w.fields))
 	}
-	return checkLimits(in, c.MaxDepth, c.MaxFields, o)
+	return checkLimits(in, c.MaxDepth, c.MaxFields, o, "limits")
 }
 
 func bucket(n int) string {
